@@ -834,6 +834,9 @@ class Executor:
         if isinstance(v, VSet) and getattr(v, 'empty_literal', False) and isinstance(rs, SetS) \
                 and frame is self.frames[0]:
             v = rs.empty()
+        if isinstance(v, VList) and getattr(v, 'empty_literal', False) and isinstance(rs, ListS) \
+                and frame is self.frames[0]:
+            v = rs.empty()
         raise ReturnEx(v)
 
     def st_Break(self, s, frame):
@@ -1726,6 +1729,16 @@ class Executor:
         if isinstance(op, (ast.NotEq, ast.IsNot)):
             return ~self.equal(a, b)
         if isinstance(op, ast.In) or isinstance(op, ast.NotIn):
+            hook = getattr(self.frames[-1].contract, 'in_model', None)
+            if hook is not None:
+                r = hook(self, a, b)
+                if r is not None:
+                    return r if isinstance(op, ast.In) else ~r
+            if isinstance(b, VTuple):
+                r = VBool(False)
+                for item in b.items:
+                    r = r | self.equal(a, item)
+                return r if isinstance(op, ast.In) else ~r
             if isinstance(b, (VSet, VMap)):
                 r = b.has(a)
             elif isinstance(b, VList):
